@@ -371,7 +371,10 @@ var arrKinds = []arrKind{
 			}
 			return a, err
 		},
-		func(a interface{}, i int32) ([]byte, bool) { v, ok := a.(*array.U16).Get(i); return leBytes(uint64(v), 2), ok },
+		func(a interface{}, i int32) ([]byte, bool) {
+			v, ok := a.(*array.U16).Get(i)
+			return leBytes(uint64(v), 2), ok
+		},
 		func(a interface{}) *array.Base { return &a.(*array.U16).Base },
 		func() (interface{}, *array.Base) { a := &array.U16{}; return a, &a.Base }},
 	{"u32", 4,
@@ -386,7 +389,10 @@ var arrKinds = []arrKind{
 			}
 			return a, err
 		},
-		func(a interface{}, i int32) ([]byte, bool) { v, ok := a.(*array.U32).Get(i); return leBytes(uint64(v), 4), ok },
+		func(a interface{}, i int32) ([]byte, bool) {
+			v, ok := a.(*array.U32).Get(i)
+			return leBytes(uint64(v), 4), ok
+		},
 		func(a interface{}) *array.Base { return &a.(*array.U32).Base },
 		func() (interface{}, *array.Base) { a := &array.U32{}; return a, &a.Base }},
 	{"u64", 8,
@@ -416,7 +422,10 @@ var arrKinds = []arrKind{
 			}
 			return a, err
 		},
-		func(a interface{}, i int32) ([]byte, bool) { v, ok := a.(*array.I16).Get(i); return leBytes(uint64(v), 2), ok },
+		func(a interface{}, i int32) ([]byte, bool) {
+			v, ok := a.(*array.I16).Get(i)
+			return leBytes(uint64(v), 2), ok
+		},
 		func(a interface{}) *array.Base { return &a.(*array.I16).Base },
 		func() (interface{}, *array.Base) { a := &array.I16{}; return a, &a.Base }},
 	{"i32", 4,
@@ -431,7 +440,10 @@ var arrKinds = []arrKind{
 			}
 			return a, err
 		},
-		func(a interface{}, i int32) ([]byte, bool) { v, ok := a.(*array.I32).Get(i); return leBytes(uint64(v), 4), ok },
+		func(a interface{}, i int32) ([]byte, bool) {
+			v, ok := a.(*array.I32).Get(i)
+			return leBytes(uint64(v), 4), ok
+		},
 		func(a interface{}) *array.Base { return &a.(*array.I32).Base },
 		func() (interface{}, *array.Base) { a := &array.I32{}; return a, &a.Base }},
 	{"i64", 8,
@@ -446,7 +458,10 @@ var arrKinds = []arrKind{
 			}
 			return a, err
 		},
-		func(a interface{}, i int32) ([]byte, bool) { v, ok := a.(*array.I64).Get(i); return leBytes(uint64(v), 8), ok },
+		func(a interface{}, i int32) ([]byte, bool) {
+			v, ok := a.(*array.I64).Get(i)
+			return leBytes(uint64(v), 8), ok
+		},
 		func(a interface{}) *array.Base { return &a.(*array.I64).Base },
 		func() (interface{}, *array.Base) { a := &array.I64{}; return a, &a.Base }},
 }
